@@ -123,7 +123,11 @@ pub struct Viol {
 #[derive(Default)]
 pub struct MapStats {
     pub prints: u64,
+    /// hash orders the seam really produced in the epochs of this map (measured on a std HashMap
+    /// of the harness, so it does not depend on how the implementation stores its maps)
     pub orders: std::collections::BTreeSet<u64>,
+    /// iteration orders of the implementation's own maps, through the public iter() (informational)
+    pub impl_orders: std::collections::BTreeSet<u64>,
     pub routes_unavailable: u64,
     pub dup_checks: u64,
     pub value_roundtrips: u64,
@@ -188,6 +192,7 @@ pub fn check_map(map_seed: u64, mask: u64, n_seeds: usize, only_seed: Option<u64
             let stats = st;
             let prints = prints_ref;
             let viol = |class: &'static str, detail: String, route: &str| Some(Viol { class, detail, hash_seed: hs, route: route.to_string() });
+            stats.orders.insert(seam::order_fingerprint());
             // ---- D4 on every value and type of the map
             let mut texts: Vec<(String, String, String)> = Vec::new();
             for (n, ty, v) in &logical.entries {
@@ -281,7 +286,7 @@ pub fn check_map(map_seed: u64, mask: u64, n_seeds: usize, only_seed: Option<u64
                         Err(p) => return viol("PANIC", format!("printing a map panicked: {p}"), route),
                     };
                     stats.prints += 1;
-                    stats.orders.insert(fnv1a(format!("{kind:?}{:?}", m.iter_order()).as_bytes()));
+                    stats.impl_orders.insert(fnv1a(format!("{kind:?}{:?}", m.iter_order()).as_bytes()));
                     // names strictly increasing
                     let names: Vec<&str> = printed
                         .lines()
@@ -422,7 +427,7 @@ pub fn run(o: &Opts) -> i32 {
             stats.orders.len(),
             v.as_ref().map(|v| v.class).unwrap_or("ok")
         ));
-        // non-trivial: >= 2 names and the underlying HashMap really iterated in >= 2 orders
+        // non-trivial: >= 2 names and the seam really applied >= 2 different hash orders
         if logical.entries.len() >= 2 && stats.orders.len() >= 2 {
             rep.nontrivial.insert(map_seed);
         }
@@ -430,7 +435,7 @@ pub fn run(o: &Opts) -> i32 {
             rep.sample(serde_json::json!({
                 "map": i, "map_seed": map_seed.to_string(),
                 "entries": logical.entries.iter().map(|(n, t, v)| serde_json::json!({"name": n, "type": t.to_string(), "value": v.to_string()})).collect::<Vec<_>>(),
-                "prints": stats.prints, "distinct_iteration_orders": stats.orders.len(),
+                "prints": stats.prints, "distinct_hash_orders_applied": stats.orders.len(), "distinct_iteration_orders_of_the_maps": stats.impl_orders.len(),
             }));
         }
         total.prints += stats.prints;
